@@ -198,18 +198,23 @@ def seed_job(job):
     res = {"exec": 0, "vios": [], "distinct": set()}
     for sd in seeds:
         r1 = permute_molecule(g, random_seed=sd)
+        snap1 = snapshot(r1)
+        r1.add_edge(10 ** 6, 10 ** 6 + 1)  # the caller owns the result; a later call must not see this
+        for _, d in r1.nodes(data=True):
+            d["scribble"] = True
+        r1 = None
         random.random()
         random.shuffle([1, 2, 3])
         r2 = permute_molecule(g, random_seed=sd)
         res["exec"] += 2
-        if snapshot(r1) != snapshot(r2):
+        if snap1 != snapshot(r2):
             res["vios"].append(("C16|seed-nondeterministic", {"kind": "c16-seed", "n": n, "edges": edges, "seed": sd,
                                                             "summary": f"seed {sd}: two calls differ"}))
         if snapshot(g) != before:
             res["vios"].append(("C16|arg-mutated", {"kind": "c16-seed", "n": n, "edges": edges, "seed": sd,
                                                     "summary": "argument was modified"}))
             g = build(n, edges)
-        err, mapping = check_result(g, r1, enforce)
+        err, mapping = check_result(g, r2, enforce)
         if err:
             res["vios"].append(("C16|" + err.split(":")[0][:40], {"kind": "c16-seed", "n": n, "edges": edges, "seed": sd,
                                                                  "summary": f"seed {sd}: {err}"}))
